@@ -23,8 +23,12 @@ PROPS = {
     "C07": dict(pkg="c07", shards=(6, 12), timeout=(600, 5400), fuzz=[("FuzzBoc", 300, 6)]),
     "C02": dict(pkg="c02", shards=(4, 16), timeout=(300, 3600)),
     "C03": dict(pkg="c03", shards=(4, 16), timeout=(600, 3600), typereg=True),
+    "C09": dict(pkg="c09", shards=(2, 8), timeout=(900, 5400)),
+    "C10": dict(pkg="c10", shards=(2, 8), timeout=(600, 3600)),
+    "C19": dict(pkg="c19", shards=(2, 8), timeout=(600, 3600)),
     "C20": dict(pkg="c20", shards=(4, 16), timeout=(600, 3600), typereg=True),
     "C08": dict(pkg="c08", shards=(6, 16), timeout=(900, 5400), typereg=True),
+    "C04": dict(pkg="c04", shards=(4, 16), timeout=(600, 3600), typereg=True),
     "C05": dict(pkg="c05", shards=(4, 16), timeout=(600, 3600)),
     "C06": dict(pkg="c06", shards=(4, 16), timeout=(300, 3600)),
 }
